@@ -1033,6 +1033,8 @@ pub struct MpcMsg {
 pub enum MpcMsgError {
     #[error("polytune engine is unreachable")]
     Unreachable,
+    #[error("unknown sender {from} of mpc message")]
+    UnknownSender { from: usize },
 }
 
 impl<B, C> PolicyState<B, C>
@@ -1042,7 +1044,11 @@ where
 {
     #[tracing::instrument(level = Level::TRACE, skip(self, ret))]
     async fn msg(&self, mpc_msg: MpcMsg, ret: Ret<MpcMsgError>) -> ControlFlow<()> {
-        match self.channel_senders[mpc_msg.from].send(mpc_msg.data).await {
+        let Some(sender) = self.channel_senders.get(mpc_msg.from) else {
+            ret_err(ret, MpcMsgError::UnknownSender { from: mpc_msg.from });
+            return ControlFlow::Continue(());
+        };
+        match sender.send(mpc_msg.data).await {
             Ok(_) => {
                 let _ = ret.send(Ok(()));
                 ControlFlow::Continue(())
